@@ -411,8 +411,6 @@ theorem parseResponse_serialize (m : Bytes) (r : ClientResp) (chunks : List Byte
     rw [List.append_assoc, parseResponse_head m r _ hwf, hfd]
     simp only [decodeChunked_encode _ _ _ hfit.1 htr]
   | eof => exact absurd hfr hne
-  | unframed => simp only [hfr] at hfd
-  | unterminatedHead => simp only [hfr] at hfd
 
 /-- two chunks `hi`, `!` and the trailer `X-T: v`, followed by the start of the next response -/
 example :
